@@ -76,7 +76,9 @@ func runC09_7(c *core.Ctx) {
 			const (
 				sIdle = iota
 				sOwed
+				sOwedFull // owed, and the count was tested to cover the whole extent size - cursor that was offered
 			)
+			extent := sizeMinusCursorVars(a, f, s.cursor)
 			isSite := func(call *ast.CallExpr) bool {
 				for _, o := range sites {
 					if o.call == call {
@@ -97,7 +99,7 @@ func runC09_7(c *core.Ctx) {
 							st = sOwed
 							return
 						}
-						if st == sOwed && isSite(y) && record && bad == token.NoPos {
+						if st != sIdle && isSite(y) && record && bad == token.NoPos {
 							bad, why = y.Pos(), "the next transfer starts while the count of this one has not been applied to the cursor"
 						}
 						if flow.IsCall(f.Info, y, a.reset) {
@@ -112,6 +114,9 @@ func runC09_7(c *core.Ctx) {
 							if j < len(y.Rhs) {
 								rhs = y.Rhs[j]
 							}
+							if tv, ok := f.Info.Types[ast.Unparen(rhs)]; ok && tv.Value != nil && tv.Value.String() == "0" && st == sOwedFull && y.Tok == token.ASSIGN {
+								st = sIdle // cursor + (size - cursor) wraps to 0
+							}
 							for cv := range cntVars {
 								if mentions(f, rhs, cv) {
 									st = sIdle
@@ -120,6 +125,37 @@ func runC09_7(c *core.Ctx) {
 						}
 					}
 				})
+				return st
+			}
+			au.Edge = func(e *flow.Edge, st int) int {
+				if st != sOwed || e.Cond == nil || e.Tag != nil {
+					return st
+				}
+				x, y, op, ok := flow.Cmp(e.Cond)
+				if !ok {
+					return st
+				}
+				xo, yo := flow.ObjOf(f.Info, x), flow.ObjOf(f.Info, y)
+				if bv, isVar := xo.(*types.Var); isVar && extent[bv] != nil {
+					xo, yo = yo, xo
+					switch op {
+					case token.LSS:
+						op = token.GTR
+					case token.GTR:
+						op = token.LSS
+					case token.LEQ:
+						op = token.GEQ
+					case token.GEQ:
+						op = token.LEQ
+					}
+				}
+				bv, isVar := yo.(*types.Var)
+				if !isVar || extent[bv] == nil || xo == nil || !cntVars[xo] {
+					return st
+				}
+				if (op == token.LSS && !e.Sense) || (op == token.GEQ && e.Sense) || (op == token.EQL && e.Sense) {
+					return sOwedFull
+				}
 				return st
 			}
 			g := f.Graph()
@@ -134,7 +170,7 @@ func runC09_7(c *core.Ctx) {
 					for i, n := range b.Nodes {
 						st = au.Node(b, i, n, st)
 					}
-					if b.Return != nil && st == sOwed && bad == token.NoPos {
+					if b.Return != nil && st != sIdle && bad == token.NoPos {
 						bad, why = b.Return.Pos(), "a return is reachable after the transfer without the cursor having been moved by its count"
 					}
 				}
@@ -653,6 +689,10 @@ func runC09_11(c *core.Ctx) {
 				c.Ok(f.Name, construct, in.node.Pos(), "made where the cursor stays below the other cursor")
 				continue
 			}
+			if advanceBelowSize(a, f, in.node, in.cur) {
+				c.Ok(f.Name, construct, in.node.Pos(), "the step is tested to be smaller than size - cursor on every path")
+				continue
+			}
 			const (
 				sIdle = iota
 				sOwed
@@ -909,4 +949,137 @@ func runC09_12(c *core.Ctx) {
 			c.Ok(f.Name, construct, s.as.Pos(), "count and error reach the caller on every return that follows")
 		}
 	}
+}
+
+// advanceBelowSize accepts `cursor += x` when, on every path into it, x was tested to be
+// smaller than a variable that still holds rb.size - cursor: the sum stays below size.
+func advanceBelowSize(a *ringAnch, f *fn, node ast.Node, cur *types.Var) bool {
+	as, ok := node.(*ast.AssignStmt)
+	if !ok || as.Tok != token.ADD_ASSIGN || len(as.Rhs) != 1 {
+		return false
+	}
+	step, _ := flow.ObjOf(f.Info, as.Rhs[0]).(*types.Var)
+	if step == nil {
+		return false
+	}
+	isCur := func(e ast.Expr) bool { return flow.FieldOf(f.Info, e) == cur }
+	bounds := sizeMinusCursorVars(a, f, cur)
+	if len(bounds) == 0 {
+		return false
+	}
+	for bv, def := range bounds {
+		const (
+			fDef = 1 << iota // bv == size - cursor
+			fLess            // step < bv
+		)
+		p := &flow.Problem{Must: true}
+		p.Node = func(b *flow.Block, i int, n ast.Node, in uint64) uint64 {
+			if n == node {
+				return in
+			}
+			flow.Events(n, func(x ast.Node) {
+				switch y := x.(type) {
+				case *ast.AssignStmt:
+					for _, l := range y.Lhs {
+						o := flow.ObjOf(f.Info, l)
+						if isCur(l) || flow.FieldOf(f.Info, l) == a.size || o == types.Object(bv) {
+							in &^= fDef | fLess
+						}
+						if o == types.Object(step) {
+							in &^= fLess
+						}
+					}
+					if y == def {
+						in |= fDef
+					}
+				case *ast.IncDecStmt:
+					o := flow.ObjOf(f.Info, y.X)
+					if isCur(y.X) || o == types.Object(bv) {
+						in &^= fDef | fLess
+					}
+					if o == types.Object(step) {
+						in &^= fLess
+					}
+				case *ast.CallExpr:
+					// a method of the ring may move the cursor
+					if r := flow.Recv(y); r != nil && f.recvVar() != nil && flow.ObjOf(f.Info, r) == types.Object(f.recvVar()) {
+						in &^= fDef | fLess
+					}
+				}
+			})
+			return in
+		}
+		p.Edge = func(e *flow.Edge, in uint64) uint64 {
+			if e.Cond == nil || e.Tag != nil {
+				return in
+			}
+			x, y, op, ok := flow.Cmp(e.Cond)
+			if !ok {
+				return in
+			}
+			xo, yo := flow.ObjOf(f.Info, x), flow.ObjOf(f.Info, y)
+			if xo == types.Object(bv) && yo == types.Object(step) {
+				xo, yo = yo, xo
+				switch op {
+				case token.LSS:
+					op = token.GTR
+				case token.GTR:
+					op = token.LSS
+				case token.LEQ:
+					op = token.GEQ
+				case token.GEQ:
+					op = token.LEQ
+				}
+			}
+			if xo != types.Object(step) || yo != types.Object(bv) {
+				return in
+			}
+			if (op == token.LSS && e.Sense) || (op == token.GEQ && !e.Sense) {
+				in |= fLess
+			}
+			return in
+		}
+		sol := f.Graph().Solve(p)
+		held := false
+		sol.Walk(func(b *flow.Block, i int, n ast.Node, before uint64) {
+			if n == node && before&(fDef|fLess) == fDef|fLess {
+				held = true
+			}
+		})
+		if held {
+			return true
+		}
+	}
+	return false
+}
+
+// sizeMinusCursorVars lists the local variables assigned `rb.size - cursor`, with the assignment.
+func sizeMinusCursorVars(a *ringAnch, f *fn, cur *types.Var) map[*types.Var]ast.Node {
+	bounds := map[*types.Var]ast.Node{}
+	ast.Inspect(f.Decl.Body, func(n ast.Node) bool {
+		d, ok := n.(*ast.AssignStmt)
+		if !ok || len(d.Lhs) != 1 || len(d.Rhs) != 1 || (d.Tok != token.DEFINE && d.Tok != token.ASSIGN) {
+			return true
+		}
+		v, _ := flow.ObjOf(f.Info, d.Lhs[0]).(*types.Var)
+		if v == nil || v.IsField() {
+			return true
+		}
+		var terms []struct {
+			e    ast.Expr
+			sign int
+		}
+		addTerms(d.Rhs[0], 1, &terms)
+		if len(terms) == 2 {
+			pos, neg := terms[0], terms[1]
+			if pos.sign < 0 {
+				pos, neg = neg, pos
+			}
+			if pos.sign > 0 && neg.sign < 0 && flow.FieldOf(f.Info, pos.e) == a.size && flow.FieldOf(f.Info, neg.e) == cur {
+				bounds[v] = d
+			}
+		}
+		return true
+	})
+	return bounds
 }
